@@ -1,7 +1,8 @@
 (* C11 - Table files mean what they say: block selection, conditions and arguments.
    Property theorems only; the proofs are in Proofs/CondEval.v (evaluator), CondTok.v
    (tokeniser), ArgsRT.v (argument splitter), Lines.v (readlines, _rewrite, line patterns),
-   BlocksB.v (block state machine and branch selection), LegacyEq.v (Flavor= groups).
+   BlocksB.v (block state machine and branch selection), LegacyEq.v (Flavor= groups),
+   LegacyFull.v (whole legacy files, Model/LegacySpec.v).
 
    Models (Model/Cond.v, Args.v, Legacy.v, Blocks.v) follow python/eups/VersionParser.py and
    python/eups/table.py; the first flag [true] selects the code with the three small repairs
@@ -22,8 +23,8 @@
    are the alphabet restrictions listed in the evidence. *)
 From Coq Require Import Lia.
 From Eupsv Require Import Base.Base Base.BaseLemmas Model.Rx Model.Cond Model.Args Model.Legacy
-  Model.Blocks Model.TableSpec Proofs.RxLib Proofs.CondEval Proofs.CondTok Proofs.ArgsRT
-  Proofs.BlocksB Proofs.Lines Proofs.LegacyEq.
+  Model.Blocks Model.TableSpec Model.LegacySpec Proofs.RxLib Proofs.CondEval Proofs.CondTok Proofs.ArgsRT
+  Proofs.BlocksB Proofs.Lines Proofs.LegacyEq Proofs.LegacyFull.
 
 (* ------------------------------------------------------------------ conditions *)
 
@@ -441,4 +442,82 @@ Example legacy_equiv_inhabited :
   table_actions true true (lit "foo") (print_new_group fs body) ex_env = Ok [mkAction (lit "envSet") [lit "A"; lit "b c"] []] /\
   table_actions true true (lit "foo") (print_old_group fs body) ex_env = Ok [mkAction (lit "envSet") [lit "A"; lit "b c"] []] /\
   table_actions true true (lit "foo") (print_new_group fs body) (mkCenv (lit "SunOS") []) = Ok [].
+Proof. vm_compute. repeat split. Qed.
+
+(* ------------------------------------------------------------------ legacy files in full *)
+
+(* Model/LegacySpec.v: a legacy file is ignorable lines, then commands, if chains and old
+   Group: / Flavor= / Common: / End: blocks, then new-style Flavor= groups, with ignorable
+   lines (blank, comment, Action = setup, Qualifiers = dq dq, File = Table, and Product = P
+   once the head of the file has a File = line) in EVERY slot: before any line, between
+   the Flavor= lines of one group, between the last Flavor= line and the body, inside the
+   bodies, before Common: and End:, at the end; key words in any letter case, any blanks
+   around the equal sign, trailing comments.  Such a file is read exactly as the if blocks
+   it corresponds to (legacy_items: each group becomes the chain over the disjunction of
+   its flavors), and it means denote_legacy: commands and chains as in any table, the body
+   of a group exactly when the flavor is one of those its Flavor= lines list. *)
+Theorem legacy_file_equiv top e t :
+  wf_env e = true -> wf_ltable t = true ->
+  wf_items (legacy_items t) = true /\
+  read_text true true top (print_legacy t) = read_text true true top (print_table (legacy_items t)) /\
+  table_actions true true top (print_legacy t) e = table_actions true true top (print_table (legacy_items t)) e /\
+  table_actions true true top (print_legacy t) e = Ok (denote_legacy e top t).
+Proof.
+  intros He Hw. pose proof (legacy_items_wf t Hw) as Wi. pose proof (legacy_file_read true top t Hw) as R.
+  assert (A : table_actions true true top (print_legacy t) e = table_actions true true top (print_table (legacy_items t)) e).
+  { unfold table_actions. now rewrite R. }
+  repeat split; auto. rewrite A, (blocks_sound top e _ He Wi). now rewrite (denote_legacy_items e top t Hw).
+Qed.
+Print Assumptions legacy_file_equiv.
+
+(* the ignorable lines are ignorable: two legacy files that differ only in them (same
+   items, same groups) are read alike *)
+Theorem legacy_ignorable_lines top t1 t2 :
+  wf_ltable t1 = true -> wf_ltable t2 = true -> legacy_items t1 = legacy_items t2 ->
+  read_text true true top (print_legacy t1) = read_text true true top (print_legacy t2).
+Proof. intros H1 H2 E. now rewrite (legacy_file_read true top t1 H1), (legacy_file_read true top t2 H2), E. Qed.
+Print Assumptions legacy_ignorable_lines.
+
+(* a group applies exactly when the flavor is listed, whatever stands between its Flavor= lines *)
+Theorem legacy_group_membership top e t g :
+  wf_env e = true -> wf_ltable t = true -> lt_top t = [] -> lt_groups t = [g] ->
+  table_actions true true top (print_legacy t) e
+  = Ok (if mem_str (ce_flavor e) (map fl_name (ng_flavors g)) then denote_body top (map bc_cmd (ng_body g)) else []).
+Proof.
+  intros He Hw Ht Hg. destruct (legacy_file_equiv top e t He Hw) as (_ & _ & _ & ->).
+  unfold denote_legacy. rewrite Ht, Hg. cbn [flat_map app]. now rewrite app_nil_r.
+Qed.
+Print Assumptions legacy_group_membership.
+
+Definition ex_ign (k : ikind) (key val : string) : ign := GKey k (lit "  ") (lit key) (lit " ") (lit " ") (lit val) [].
+Definition ex_flav (pre : list ign) (name : string) : flav := mkFlav pre [] (lit "Flavor") (lit " ") (lit " ") (lit name) [].
+Arguments ex_ign k (key val)%string.
+Arguments ex_flav pre name%string.
+(* File = Table / Product = foo / a command / an old group with Qualifiers between its
+   Flavor lines / a new-style group whose two Flavor lines are separated by Qualifiers and
+   whose body starts with Action = setup / a second group / a trailing comment *)
+Definition ex_legset (v : string) : cmd := ex_cmd KSetenv "setenv" [lit "A"; lit v] (mkArglay 0 [(lit ", ", true)] 0).
+Arguments ex_legset v%string.
+Definition ex_legacy : ltable :=
+  let q := ex_ign IKQual "Qualifiers" "" in
+  let a := ex_ign IKAction "ACTION" "setup" in
+  mkLt [GJunk (lit "# old format"); ex_ign IKFile "File" "Table"]
+       [TItem [ex_ign IKProduct "Product" "foo"] (ICmd (ex_legset "top"));
+        TOld [a] (mkKw [] (lit "Group:") []) [ex_flav [] "SunOS"; ex_flav [q] "Darwin"] [q]
+             (mkKw (lit " ") (lit "COMMON:") (lit " # c")) [mkBcmd [a; GJunk []] (ex_legset "old")] [q] (mkKw [] (lit "End:") [])]
+       [mkNg [ex_flav [] "Linux"; ex_flav [q] "Linux64"] [mkBcmd [q; a] (ex_legset "b c"); mkBcmd [ex_ign IKFile "file" "TABLE"] (ex_legset "d")];
+        mkNg [ex_flav [q; a] "DarwinX86"] [mkBcmd [] (ex_legset "x")]]
+       [GJunk (lit "  # end")].
+
+Example legacy_file_inhabited :
+  wf_ltable ex_legacy = true /\
+  table_actions true true (lit "foo") (print_legacy ex_legacy) (mkCenv (lit "Linux") [])
+  = Ok [mkAction (lit "envSet") [lit "A"; lit "top"] []; mkAction (lit "envSet") [lit "A"; lit "b c"] [];
+        mkAction (lit "envSet") [lit "A"; lit "d"] []] /\
+  table_actions true true (lit "foo") (print_legacy ex_legacy) (mkCenv (lit "Linux64") [])
+  = table_actions true true (lit "foo") (print_legacy ex_legacy) (mkCenv (lit "Linux") []) /\
+  table_actions true true (lit "foo") (print_legacy ex_legacy) (mkCenv (lit "Darwin") [])
+  = Ok [mkAction (lit "envSet") [lit "A"; lit "top"] []; mkAction (lit "envSet") [lit "A"; lit "old"] []] /\
+  table_actions true true (lit "foo") (print_legacy ex_legacy) (mkCenv (lit "Plan9") [])
+  = Ok [mkAction (lit "envSet") [lit "A"; lit "top"] []].
 Proof. vm_compute. repeat split. Qed.
